@@ -17,6 +17,8 @@
 -/
 import GrogModel.Props.C12
 import GrogModel.Lemmas.Sys
+import GrogModel.Props.C04
+import GrogModel.Props.C11
 namespace Grog.C12
 open Grog
 
@@ -140,6 +142,105 @@ theorem unselected_never_started (g : BuildGraph) (s : Selector) (h : Host) (ord
     {st : Walker.State} (hr : Walker.Reach (walkerCfg g sel ff) st) {n : Nat} (hn : n ∉ sel) :
     st.phase n = .parked :=
   (Walker.reach_inv (walker_cfg_ok g s h order sel cost ff hok hac) hr).nonSel n hn
+
+/-! ### acyclicity, discharged from C11 -/
+
+/-- a finite edge list without a cycle is well-founded (the walker's `CfgOK.acyclic`) -/
+theorem acyclic_of_no_cycle : ∀ (es : List Edge), (∀ v, ¬ ReachPlus es v v) → Acyclic es
+  | [], _ => ⟨fun n => Acc.intro n (fun d hd => by simp at hd)⟩
+  | (a, b) :: es, hno => by
+    -- the smaller edge list has no cycle either, hence is well-founded
+    have hsub : ∀ {x y}, Reach es x y → Reach ((a, b) :: es) x y := by
+      intro x y h
+      induction h with
+      | refl => exact Reach.refl _
+      | step e _ ih => exact Reach.step (List.mem_cons_of_mem _ e) ih
+    have hno' : ∀ v, ¬ ReachPlus es v v := by
+      rintro v ⟨y, e, r⟩
+      exact hno v ⟨y, List.mem_cons_of_mem _ e, hsub r⟩
+    have hwf : WellFounded (fun d n => (d, n) ∈ es) := acyclic_of_no_cycle es hno'
+    -- `b` does not lie below `a` (that would close a cycle through the new edge)
+    have hba : ¬ Reach es b a := by
+      intro h
+      exact hno a ⟨b, List.mem_cons_self .., hsub h⟩
+    -- nodes that `b` does not reach downwards keep their old predecessors
+    have hacc1 : ∀ x, ¬ Reach es b x → Acc (fun d n => (d, n) ∈ (a, b) :: es) x := by
+      intro x
+      induction x using hwf.induction with
+      | _ x ih =>
+        intro hbx
+        refine Acc.intro x (fun d hd => ?_)
+        rcases List.mem_cons.mp hd with heq | hd'
+        · simp only [Prod.mk.injEq] at heq
+          exact absurd (by rw [heq.2]; exact Reach.refl b) hbx
+        · exact ih d hd' (fun hbd => hbx (hbd.tail hd'))
+    have hacca := hacc1 a hba
+    refine ⟨fun x => ?_⟩
+    induction x using hwf.induction with
+    | _ x ih =>
+      refine Acc.intro x (fun d hd => ?_)
+      rcases List.mem_cons.mp hd with heq | hd'
+      · simp only [Prod.mk.injEq] at heq
+        rw [heq.1]; exact hacca
+      · exact ih d hd'
+
+/-- **`Acyclic`, discharged from C11**: if the graph's nodes carry labels (`lab`) and every edge
+    `(dependency, dependant)` is an edge of the successor function `succ` the analysis ran `FindCycle` on
+    (`succ u` = the dependants of `u`, `outEdges`), then C11's acyclicity (`Analysis.Acyclic succ`, what
+    `C11.findCycle_complete` gives for a graph in which `FindCycle` reports nothing) is the walker's hypothesis. -/
+theorem acyclic_of_c11 (es : List Edge) (lab : Nat → Label) (succ : Label → List Label)
+    (hedge : ∀ e ∈ es, lab e.2 ∈ succ (lab e.1)) (hac : Analysis.Acyclic succ) : Acyclic es := by
+  apply acyclic_of_no_cycle
+  have hpath : ∀ {y x}, Reach es y x → ∀ v, (v, y) ∈ es → Analysis.TPath (Analysis.stepOf succ) (lab v) (lab x) := by
+    intro y x h
+    induction h with
+    | refl a => intro v e; exact Analysis.TPath.single (hedge _ e)
+    | step e' _ ih => intro v e; exact Analysis.TPath.cons (hedge _ e) (ih _ e')
+  rintro v ⟨y, e, r⟩
+  exact hac (lab v) (hpath r v e)
+
+/-- … directly from the search: `FindCycle` (model `findCycleG`) reporting nothing on a vertex list that contains
+    every successor makes every edge list embedded in `succ` acyclic -/
+theorem acyclic_of_findCycle (es : List Edge) (lab : Nat → Label) (V : List Label) (succ : Label → List Label)
+    (hV : ∀ u v, v ∈ succ u → v ∈ V) (hedge : ∀ e ∈ es, lab e.2 ∈ succ (lab e.1))
+    (b : List Label) (hfc : Analysis.findCycleG V succ = .ok b) : Acyclic es :=
+  acyclic_of_c11 es lab succ hedge ((C11.findCycle_complete V succ hV).1 b hfc)
+
+/-- `only_selected_run` with acyclicity discharged by the analysis: for a graph on which `FindCycle` reported nothing -/
+theorem only_selected_run_c11 (g : BuildGraph) (s : Selector) (h : Host) (order sel : List Nat) (cost : Nat) (ff : Bool)
+    (hc : Covers g order) (hok : selectForBuild g s h order = .ok sel cost)
+    (lab : Nat → Label) (V : List Label) (succ : Label → List Label)
+    (hV : ∀ u v, v ∈ succ u → v ∈ V) (hedge : ∀ e ∈ g.edges, lab e.2 ∈ succ (lab e.1))
+    (b : List Label) (hfc : Analysis.findCycleG V succ = .ok b)
+    {st : Sys.State} (hr : Sys.Reach (walkerCfg g sel ff) st) {n : Nat} (hcmd : (st.task n).active = true) :
+    n ∈ sel ∧ (Matched g s h n ∨ ∃ m, Matched g s h m ∧ ReachPlus g.edges n m) ∧
+    st.w.phase n = .running ∧ ∀ a, ReachPlus g.edges a n → st.w.phase a = .ok :=
+  only_selected_run g s h order sel cost ff hc hok (acyclic_of_findCycle g.edges lab V succ hV hedge b hfc) hr hcmd
+
+/-- the converse direction of "exactly": when `Walk` returns through the wait group without cancellation, every
+    selected node has a completion (`ok` / `failed`) or was skipped below a failed transitive dependency
+    (`C04.completions_cover` instantiated for the configuration of a real build) -/
+theorem selected_all_complete (g : BuildGraph) (s : Selector) (h : Host) (order sel : List Nat) (cost : Nat) (ff : Bool)
+    (hok : selectForBuild g s h order = .ok sel cost) (hac : Acyclic g.edges)
+    {st st' : Walker.State} (hr : Walker.Reach (walkerCfg g sel ff) st)
+    (hret : Walker.step (walkerCfg g sel ff) st (.walkReturn false) = some st') (hctx : st.ctx = false) :
+    ∀ n ∈ sel, st.phase n = .ok ∨ st.phase n = .failed ∨
+      (st.phase n = .exited ∧ ∃ a, ReachPlus g.edges a n ∧ st.phase a = .failed) := by
+  have := (C04.completions_cover (walker_cfg_ok g s h order sel cost ff hok hac) hr hret hctx).1
+  intro n hn
+  rcases this n hn with h1 | h1 | ⟨h1, a, ha, hf⟩
+  · exact Or.inl h1
+  · exact Or.inr (Or.inl h1)
+  · exact Or.inr (Or.inr ⟨h1, a, (anc_iff_reachPlus g sel ff a n).mp ha, hf⟩)
+
+/-- the C12 theorems hold for every selector, in particular for those whose patterns were produced by the parser
+    of C17 from any strings in any current package (this is how the CLI builds them) -/
+theorem select_eq_closure_parsed (g : BuildGraph) (cur : Bytes) (strs : List Bytes) (pats : List Pattern)
+    (_hp : strs.mapM (parsePattern cur) = some pats) (tags ex : List Bytes) (typ : TypeSel)
+    (h : Host) (order sel : List Nat) (c : Nat) (hc : Covers g order)
+    (hok : selectForBuild g ⟨pats, tags, ex, typ⟩ h order = .ok sel c) (x : Nat) :
+    x ∈ sel ↔ Matched g ⟨pats, tags, ex, typ⟩ h x ∨ ∃ m, Matched g ⟨pats, tags, ex, typ⟩ h m ∧ ReachPlus g.edges x m :=
+  select_eq_closure g ⟨pats, tags, ex, typ⟩ h order sel c hc hok x
 
 /-! ### the hypotheses are satisfiable: x ← ax (alias) ← t, pattern `//:t`, `--all-platforms` -/
 
